@@ -240,7 +240,16 @@ func (c *Ctx) evalModEntry(e SExpr, qvars []Term, guard Term) []ModEntry {
 					c.refuse("modifies arr(): not a slice")
 				}
 				elem := v.Typ.Underlying().(*types.Slice).Elem()
-				return []ModEntry{{qvars: qvars, guard: guard, id: v.Arr, heaps: c.elemLeafRefs(elem), src: src}}
+				heaps := c.elemLeafRefs(elem)
+				if classify(elem) == TInt && !isPlainInt(elem) {
+					// fixed-width integer elements have two representations (mathematical / bit-vector): the
+					// array is modified in both views
+					for _, im := range []string{"wrap", "bv"} {
+						es := scalarSort(elem, im, c.Fr.Floats)
+						heaps = append(heaps, heapRef{elemBase(elem) + modeSuffix(elem, im, c.Fr.Floats), nestedArr(2, es)})
+					}
+				}
+				return []ModEntry{{qvars: qvars, guard: guard, id: v.Arr, heaps: heaps, src: src}}
 			case "footprint":
 				v := c.evalSpec(x.Args[0])
 				return c.footprintEntries(v, qvars, guard, src)
